@@ -19,7 +19,9 @@ RULE = ("A case is an item grader (String, Formula, Numerical, Matrix, SingleLis
         "every expect entry of every alternative is graded alone by a single-alternative grader of the same class and "
         "options without wrong_msg (g_k); then the full grader is built in every listing order (all n! orders for n<=4, "
         "24 generated orders for n=5,6; entries of expect tuples rotated with the order) and must, in each order, "
-        "return grade == max g_k (1e-12), an ok value and a message of one of the max-grade entries whose message is "
+        "return grade == max g_k (1e-12), an ok value and a message of one of the max-grade entries (entries whose "
+        "computed credit equals the maximum; a case where another entry lies within 1e-9 of the maximum without being "
+        "equal is discarded if counting it as tied would change the verdict) whose message is "
         "longest (any of them if equally long; length measured with or without the '<br/>' line-break markup), except "
         "that the message is exactly wrong_msg iff max g_k == 0 and every max-grade message is empty; if some g_k "
         "raises, every order must raise an MITxError; if none raises, no order may raise. Exhaustive parts: every "
@@ -196,14 +198,22 @@ def derive(singles, wrong):
     res = [v for _, v in singles]
     grades = [r['grade_decimal'] for r in res]
     mx = max(grades)
-    if any(1e-12 < mx - g < 1e-9 for g in grades):
-        raise Discard('two alternatives earn credits within 1e-9 of each other')
-    tied = [r for r in res if mx - r['grade_decimal'] <= 1e-12]
-    msgs = [r['msg'] for r in tied]
-    lr = max(len(raw(m)) for m in msgs)
-    lf = max(len(m) for m in msgs)
-    longest = sorted({m for m in msgs if len(raw(m)) == lr or len(m) == lf})
-    use_wrong = mx == 0 and lf == 0
+
+    def outcome(tied):
+        msgs = [r['msg'] for r in tied]
+        lr = max(len(raw(m)) for m in msgs)
+        lf = max(len(m) for m in msgs)
+        longest = sorted({m for m in msgs if len(raw(m)) == lr or len(m) == lf})
+        use_wrong = mx == 0 and lf == 0
+        return msgs, longest, use_wrong
+
+    # a tie is a tie of the computed credits; credits that agree in exact arithmetic but differ by rounding noise
+    # (1/6 as (1 + 1/3 - 1)/2 and as 0.5 * (1/3)) sit on the decision boundary: judged only if it makes no difference
+    tied = [r for r in res if r['grade_decimal'] == mx]
+    loose = [r for r in res if mx - r['grade_decimal'] < 1e-9]
+    msgs, longest, use_wrong = outcome(tied)
+    if len(loose) != len(tied) and outcome(loose)[1:] != (longest, use_wrong):
+        raise Discard('credits of two alternatives differ by rounding noise only and their messages differ')
     allowed = [fmt(wrong)] if use_wrong else longest
     oks = [r['ok'] for r in tied if r['msg'] in longest]
     return {'raises': False, 'max': mx, 'allowed': allowed, 'oks': oks, 'use_wrong': use_wrong,
@@ -445,7 +455,7 @@ def chance(draw, percent):
 
 
 @st.composite
-def profiles(draw, kind, inner=False):
+def profiles(draw, kind):
     """Options of one grader plus what the alternative / input generators need (families in play, tokens, table)."""
     if kind == 'S':
         k = draw(st.integers(1, 3))
